@@ -9,7 +9,7 @@ from kernpy.core.transposer import Intervals, IntervalsByName, AVAILABLE_INTERVA
 
 
 # ------------------------------------------------------------------------------------------------ data invariants
-@contract(None, props=['C09'], const='kernpy.core.pitch_models.Chromas')
+@contract(None, props=['C09', 'C15'], const='kernpy.core.pitch_models.Chromas')
 class chromas_table:
     def inputs(g):
         return {}
@@ -30,7 +30,7 @@ class chromas_table:
         return len(set(result.values())) == len(result)
 
 
-@contract(None, props=['C09'], const='kernpy.core.pitch_models.ChromasByValue')
+@contract(None, props=['C09', 'C15'], const='kernpy.core.pitch_models.ChromasByValue')
 class chromas_by_value_table:
     def inputs(g):
         return {}
@@ -46,7 +46,7 @@ class chromas_by_value_table:
                    for v, k in result.items())
 
 
-@contract(None, props=['C09'], const='kernpy.core.transposer.Intervals')
+@contract(None, props=['C09', 'C15'], const='kernpy.core.transposer.Intervals')
 class intervals_table:
     def inputs(g):
         return {}
@@ -59,7 +59,7 @@ class intervals_table:
         return len(result) == len(interval_names())
 
 
-@contract(None, props=['C09'], const='kernpy.core.transposer.IntervalsByName')
+@contract(None, props=['C09', 'C15'], const='kernpy.core.transposer.IntervalsByName')
 class intervals_by_name_table:
     def inputs(g):
         return {}
@@ -68,7 +68,7 @@ class intervals_by_name_table:
         return all(result.get(n) == interval_model(n)[2] for n in interval_names()) and len(result) == len(interval_names())
 
 
-@contract(None, props=['C09'], const='kernpy.core.transposer.AVAILABLE_INTERVALS')
+@contract(None, props=['C09', 'C15'], const='kernpy.core.transposer.AVAILABLE_INTERVALS')
 class available_intervals:
     def inputs(g):
         return {}
@@ -85,7 +85,7 @@ def pitch_inputs(g, amax=2):
     return L, a, o
 
 
-@contract('kernpy.core.pitch_models.AgnosticPitch.__init__', props=['C09', 'C16'])
+@contract('kernpy.core.pitch_models.AgnosticPitch.__init__', props=['C09', 'C16', 'C15'])
 class pitch_init:
     """AgnosticPitch(name, octave) for a canonical agnostic name: the object carries exactly that name and octave."""
     def inputs(g):
@@ -98,7 +98,7 @@ class pitch_init:
         return conj(self.name == name, self.octave == octave)
 
 
-@contract('kernpy.core.pitch_models.AgnosticPitch.get_chroma', props=['C09'])
+@contract('kernpy.core.pitch_models.AgnosticPitch.get_chroma', props=['C09', 'C15'])
 class get_chroma:
     """chroma = 40 * octave + B40[letter] + alteration, for every octave; never raises on a name with <= 2 accidentals."""
     def inputs(g):
@@ -124,7 +124,7 @@ def exact_target(L, a, o, dia, semi, sign):
     return (Lx, ax, ox)
 
 
-@contract('kernpy.core.pitch_models.AgnosticPitch.to_transposed', props=['C09'])
+@contract('kernpy.core.pitch_models.AgnosticPitch.to_transposed', props=['C09', 'C15'])
 class to_transposed:
     """result is the pitch whose base-40 value is the source value plus/minus the interval, for every octave, every
     integer interval and both directions; KeyError exactly when the sum falls on the unused class 22.
@@ -157,7 +157,7 @@ class to_transposed:
         return {'KeyError': c % 40 == 22}
 
 
-@contract('kernpy.core.transposer.transpose_agnostics', props=['C09'])
+@contract('kernpy.core.transposer.transpose_agnostics', props=['C09', 'C15'])
 class transpose_agnostics:
     def inputs(g):
         L, a, o = pitch_inputs(g)
@@ -187,7 +187,7 @@ class transpose_agnostics:
         return {'KeyError': c % 40 == 22}
 
 
-@contract('kernpy.core.transposer.transpose', props=['C09'])
+@contract('kernpy.core.transposer.transpose', props=['C09', 'C15'])
 class transpose:
     """The string API (Humdrum in, Humdrum out): transpose(Spell(p), i, d) == Spell(p moved by i base-40 units)."""
     def inputs(g):
